@@ -1,3 +1,4 @@
+pub mod alloc;
 pub mod chanrun;
 pub mod containers;
 pub mod life;
